@@ -470,6 +470,9 @@ def stepMode (s : LexCore) (r : Char) : Outcome LexCore :=
     | some c => .ok { s with buffer := s.buffer ++ [c], state := .runeLit }
   | .unquote =>
     if r == '@' then .ok { appendToken s ⟨.tildeAt, []⟩ with state := .normal }
+    else if r == '(' || r == '[' || r == '{' then
+      -- ~(expr): the bracket opens the unquoted expression and is lexed in the normal state (repo 50bfc31)
+      stepNormal { appendToken s ⟨.tilde, []⟩ with state := .normal } r
     else .ok { appendToken s ⟨.tilde, []⟩ with buffer := s.buffer ++ [r], state := .normal }
   | .freshAssignOrColon => stepFresh s r
   | .builtinOperator => stepBuiltin s r
